@@ -26,6 +26,7 @@ ASSUMPTIONS = [
     "float columns: 1e-9 relative; ids as partitions; everything else exact incl. dtype kind",
 ]
 BUDGET = {"quick": (32, 7), "thorough": (None, 40)}
+EARLY = 6  # additional strata from 2005-2014 in the quick tier (all of them in the thorough tier)
 GEN = dict(mode="branch", max_households=3)
 
 
